@@ -200,4 +200,176 @@ example : (constructAll [] [⟨1, 10, 11⟩, ⟨2, 20, 21⟩, ⟨3, 10, 11⟩]).
 example : Cache.WF [] := by intro e he; cases he
 example : (gsCall .smooth ⟨7, 5, 3⟩ [[[1, 2], [3]], [[4]]]).2 = [2, 4] := by decide +kernel
 
+/-! ### override_relu_gradient: clone + re-route is a frame-preserving heap operation -/
+
+theorem setRule1_length (r : Rule) (h : Heap) (i : Nat) : (setRule1 r h i).length = h.length := by
+  unfold setRule1; split
+  · split <;> simp
+  · rfl
+
+theorem setRule1_frame (r : Rule) (h : Heap) (i j : Nat) (hne : j ≠ i) : (setRule1 r h i)[j]? = h[j]? := by
+  unfold setRule1; split
+  · split
+    · rw [List.getElem?_set_ne (by omega)]
+    · rfl
+  · rfl
+
+theorem setRule_length (h : Heap) (ids : List Nat) (r : Rule) : (setRule h ids r).length = h.length := by
+  unfold setRule
+  induction ids generalizing h with
+  | nil => rfl
+  | cons i ids ih => simp only [List.foldl_cons]; rw [ih, setRule1_length]
+
+theorem setRule_frame (h : Heap) (ids : List Nat) (r : Rule) (j : Nat) (hj : j ∉ ids) :
+    (setRule h ids r)[j]? = h[j]? := by
+  unfold setRule
+  induction ids generalizing h with
+  | nil => rfl
+  | cons i ids ih =>
+    simp only [List.foldl_cons]
+    rw [ih _ (fun hm => hj (List.mem_cons_of_mem _ hm)), setRule1_frame]
+    intro e; exact hj (e ▸ List.mem_cons_self)
+
+/-- what re-routing does to one object -/
+def reroute (r : Rule) (l : LayerObj) : LayerObj := if l.relu then { l with rule := r } else l
+
+theorem setRule1_at (r : Rule) (h : Heap) (i : Nat) : (setRule1 r h i)[i]? = (h[i]?).map (reroute r) := by
+  unfold setRule1 reroute
+  cases hh : h[i]? with
+  | none => simpa using hh
+  | some l =>
+    simp only [Option.map_some]
+    split
+    · have hi : i < h.length := by
+        rcases List.getElem?_eq_some_iff.mp hh with ⟨hi, _⟩; exact hi
+      simp [List.getElem?_set_self hi]
+    · simp [hh]
+
+theorem setRule_at (h : Heap) (ids : List Nat) (r : Rule) (hnd : ids.Nodup) (j : Nat) (hj : j ∈ ids) :
+    (setRule h ids r)[j]? = (h[j]?).map (reroute r) := by
+  induction ids generalizing h with
+  | nil => cases hj
+  | cons i ids ih =>
+    rw [List.nodup_cons] at hnd
+    have hstep : setRule h (i :: ids) r = setRule (setRule1 r h i) ids r := rfl
+    rw [hstep]
+    by_cases hji : j = i
+    · subst hji
+      rw [setRule_frame _ _ _ _ hnd.1, setRule1_at]
+    · have hj' : j ∈ ids := by
+        cases hj with
+        | head => exact absurd rfl hji
+        | tail _ h' => exact h'
+      rw [ih _ hnd.2 hj', setRule1_frame _ _ _ _ hji]
+
+/-- **the clone's sites** — object k of the clone is the copy of the model's k-th layer, re-routed to the requested
+    rule when (and only when) it is a ReLU site -/
+theorem clone_site (h : Heap) (m : LModel) (r : Rule) (k : Nat) (hk : k < m.length) :
+    (overrideClone h m r).1[h.length + k]? = some (reroute r (h[m[k]]?.getD default)) := by
+  unfold overrideClone
+  simp only
+  rw [setRule_at _ _ _ (by simp [cloneModel, List.nodup_range']) _ (by simp [cloneModel, List.mem_range'_1]; omega)]
+  simp [cloneModel, hk]
+
+/-- clone_model allocates only fresh identities -/
+theorem clone_fresh (h : Heap) (m : LModel) : ∀ i ∈ (cloneModel h m).2, h.length ≤ i := by
+  intro i hi
+  simp only [cloneModel, List.mem_range'_1] at hi
+  omega
+
+theorem overrideClone_length (h : Heap) (m : LModel) (r : Rule) :
+    (overrideClone h m r).1.length = h.length + m.length := by
+  simp [overrideClone, setRule_length, cloneModel]
+
+/-- **frame** — `override_relu_gradient` leaves every object that existed before the call untouched -/
+theorem override_frame (h : Heap) (m : LModel) (r : Rule) (j : Nat) (hj : j < h.length) :
+    (overrideClone h m r).1[j]? = h[j]? := by
+  unfold overrideClone
+  simp only
+  rw [setRule_frame]
+  · simp [cloneModel, List.getElem?_append_left hj]
+  · intro hm
+    have := clone_fresh h m j hm
+    omega
+
+/-- the clone shares no layer object with the model it was made from -/
+theorem override_shares_nothing (h : Heap) (m : LModel) (r : Rule) (hm : ∀ i ∈ m, i < h.length) :
+    ∀ i ∈ (overrideClone h m r).2, i ∉ m := by
+  intro i hi hmem
+  have := clone_fresh h m i hi
+  have := hm i hmem
+  omega
+
+theorem overrideAll_go (h : Heap) (acc : List LModel) (steps : List (LModel × Rule)) :
+    let r := steps.foldl (fun (a : Heap × List LModel) s =>
+      let r := overrideClone a.1 s.1 s.2; (r.1, a.2 ++ [r.2])) (h, acc)
+    h.length ≤ r.1.length ∧ ∀ j, j < h.length → r.1[j]? = h[j]? := by
+  induction steps generalizing h acc with
+  | nil => exact ⟨Nat.le_refl _, fun _ _ => rfl⟩
+  | cons s steps ih =>
+    simp only [List.foldl_cons]
+    have h1 := ih (overrideClone h s.1 s.2).1 (acc ++ [(overrideClone h s.1 s.2).2])
+    have hl := overrideClone_length h s.1 s.2
+    refine ⟨Nat.le_trans (by omega) h1.1, fun j hj => ?_⟩
+    exact (h1.2 j (by omega)).trans (override_frame h s.1 s.2 j hj)
+
+/-- **history frame** — after ANY sequence of DeconvNet / GuidedBackprop constructions (on any models, with any
+    rules) every object that existed before is unchanged -/
+theorem overrideAll_frame (h : Heap) (steps : List (LModel × Rule)) (j : Nat) (hj : j < h.length) :
+    (overrideAll h steps).1[j]? = h[j]? := (overrideAll_go h [] steps).2 j hj
+
+theorem rulesOf_congr (h h' : Heap) (m : LModel) (hh : ∀ i ∈ m, h'[i]? = h[i]?) : rulesOf h' m = rulesOf h m := by
+  unfold rulesOf
+  congr 1
+  apply List.filterMap_congr
+  intro i hi; exact hh i hi
+
+/-- **the user's model is never modified** — its ReLU sites route to the same rules after any construction history -/
+theorem user_model_untouched (h : Heap) (m : LModel) (steps : List (LModel × Rule)) (hm : ∀ i ∈ m, i < h.length) :
+    rulesOf (overrideAll h steps).1 m = rulesOf h m :=
+  rulesOf_congr _ _ _ fun i hi => overrideAll_frame h steps i (hm i hi)
+
+theorem overrideAll_append (h : Heap) (s1 s2 : List (LModel × Rule)) :
+    (overrideAll h (s1 ++ s2)).1 = (overrideAll (overrideAll h s1).1 s2).1 := by
+  unfold overrideAll
+  rw [List.foldl_append]
+  generalize (List.foldl (fun (a : Heap × List LModel) s =>
+      let r := overrideClone a.1 s.1 s.2; (r.1, a.2 ++ [r.2])) (h, []) s1) = r
+  obtain ⟨h1, acc⟩ := r
+  suffices ∀ (a b : List LModel) (g : Heap),
+      (List.foldl (fun (a : Heap × List LModel) s =>
+        let r := overrideClone a.1 s.1 s.2; (r.1, a.2 ++ [r.2])) (g, a) s2).1 =
+      (List.foldl (fun (a : Heap × List LModel) s =>
+        let r := overrideClone a.1 s.1 s.2; (r.1, a.2 ++ [r.2])) (g, b) s2).1 from this _ _ _
+  induction s2 with
+  | nil => intros; rfl
+  | cons s s2 ih => intro a b g; simp only [List.foldl_cons]; exact ih _ _ _
+
+/-- **an explainer created earlier is unaffected by explainers created later**: the clone made by a construction
+    keeps its rules whatever is constructed afterwards -/
+theorem earlier_explainer_unaffected (h : Heap) (m : LModel) (r : Rule) (later : List (LModel × Rule)) :
+    let c := overrideClone h m r
+    rulesOf (overrideAll c.1 later).1 c.2 = rulesOf c.1 c.2 := by
+  intro c
+  apply rulesOf_congr
+  intro i hi
+  apply overrideAll_frame
+  have hl : c.1.length = h.length + m.length := overrideClone_length h m r
+  have : i ∈ List.range' h.length m.length := hi
+  rw [List.mem_range'_1] at this
+  omega
+
+/-- the seeded / tempting variant (sharing the weight-less ReLU layers with the clone) violates the property -/
+theorem Witness.shared_override_changes_user :
+    ∃ (h : Heap) (m : LModel) (r : Rule), rulesOf (overrideShared h m r).1 m ≠ rulesOf h m :=
+  ⟨[⟨true, .plain⟩], [0], .guided, by decide⟩
+
+-- non-vacuity: a model with two ReLU sites, a DeconvNet then a GuidedBackprop built on it
+example : rulesOf (overrideAll [⟨false, .plain⟩, ⟨true, .plain⟩, ⟨true, .plain⟩] [([0, 1, 2], .deconv), ([0, 1, 2], .guided)]).1
+    [0, 1, 2] = [.plain, .plain] := by decide
+example : (overrideAll [⟨false, .plain⟩, ⟨true, .plain⟩, ⟨true, .plain⟩] [([0, 1, 2], .deconv), ([0, 1, 2], .guided)]).2
+    = [[3, 4, 5], [6, 7, 8]] := by decide
+example : rulesOf (overrideAll [⟨false, .plain⟩, ⟨true, .plain⟩, ⟨true, .plain⟩] [([0, 1, 2], .deconv), ([0, 1, 2], .guided)]).1
+    [3, 4, 5] = [.deconv, .deconv] := by decide
+
 end Xp.Hist
